@@ -177,12 +177,17 @@ func c08Property(t *rapid.T) {
 		s.flush()
 	}
 	// scripted application: what the callbacks answer is switched by a generated action
-	var refuseLogon, refuseAdmin, refuseApp, refuseSend bool
+	var refuseLogon, refuseLogonOrdinary, refuseAdmin, refuseApp, refuseSend bool
 	s.r.FromAdminErr = func(m *quickfix.Message) quickfix.MessageRejectError {
 		mt, _ := m.Header.GetString(35)
 		switch {
 		case mt == "A" && refuseLogon:
 			mon.feat["application-refused-logon"] = true
+			if refuseLogonOrdinary {
+				// an application that answers with an ordinary reject instead of RejectLogon
+				mon.feat["application-refused-logon-with-an-ordinary-reject"] = true
+				return quickfix.ValueIsIncorrect(quickfix.Tag(554))
+			}
 			return quickfix.RejectLogon{Text: "not today"}
 		case mt != "A" && refuseAdmin:
 			return quickfix.ValueIsIncorrect(quickfix.Tag(35))
@@ -200,6 +205,7 @@ func c08Property(t *rapid.T) {
 		"idle": func(t *rapid.T) {},
 		"applicationMood": func(t *rapid.T) {
 			refuseLogon = rapid.IntRange(0, 2).Draw(t, "refuse-logon") == 0
+			refuseLogonOrdinary = rapid.Bool().Draw(t, "refuse-logon-with-an-ordinary-reject")
 			refuseAdmin = rapid.IntRange(0, 3).Draw(t, "refuse-admin") == 0
 			refuseApp = rapid.IntRange(0, 3).Draw(t, "refuse-app") == 0
 			refuseSend = rapid.IntRange(0, 3).Draw(t, "refuse-send") == 0
